@@ -709,6 +709,228 @@ RunChurnStorm()
   EmitResult(res, "ok");
   return 0;
 }
+
+// mode=handoff: a randomised history of thread starts and exits with a definite expectation after every step.  Holder
+// threads claim an ID and keep it until they are told to exit; transient threads claim an ID and exit at once; starts
+// and exits are fired together from a spin gate with sub-microsecond skews (a claim that fills the table racing with an
+// exit, exits racing with waiters that are awake).  After every step the number of holders must reach
+// min(N, holder threads alive) - every ID that is free must be obtainable - within the watchdog horizon; no injected
+// delays, optionally signal preemption.
+struct HThread {
+  std::thread th;
+  std::atomic<int> release{0};
+  std::atomic<int> state{0};  // 0 started, 1 holding, 2 left user code
+  bool transient{false};
+  bool released{false};
+  uint64_t skew_ns{0};
+};
+std::atomic<int> g_ho_gate_seq{0};
+std::atomic<int64_t> g_ho_holding{0};
+std::atomic<uint64_t> g_ho_claims{0}, g_ho_transient_done{0};
+
+void
+HandoffBody(HThread *h, int gate_seq, int64_t probe, uint64_t uid)
+{
+  tl_probe_start = probe;
+  if (g_preempt_run.load(kRlx)) PreemptRegister();
+  while (g_ho_gate_seq.load(std::memory_order_acquire) < gate_seq) {
+  }
+  if (h->skew_ns != 0) SpinNs(h->skew_ns);
+  const auto id = IDManager::GetThreadID();
+  g_ho_claims.fetch_add(1, kRlx);
+  if (id >= kN) {
+    Violate("C05", "id-out-of-range", Fmt("GetThreadID returned %zu with capacity %zu (handoff)", id, kN));
+  } else {
+    const auto prev = g_owner[id].exchange(uid, kMo);
+    if (prev != 0) {
+      Violate("C05", "same-id-held-by-two-running-threads",
+              Fmt("capacity=%zu handoff: thread uid=%" PRIu64 " obtained id %zu while thread uid=%" PRIu64 " is still executing user code with the same id", kN, uid,
+                  id, prev));
+    }
+    g_slot_claims[id].fetch_add(1, kRlx);
+  }
+  if (!h->transient) {
+    g_ho_holding.fetch_add(1, kMo);
+    h->state.store(1, kMo);
+    while (h->release.load(std::memory_order_acquire) == 0) sched_yield();
+    if (h->skew_ns != 0) SpinNs(h->skew_ns);
+    if (IDManager::GetThreadID() != id) Violate("C05", "id-not-stable", Fmt("handoff: %zu then %zu", id, IDManager::GetThreadID()));
+    g_ho_holding.fetch_sub(1, kMo);
+  }
+  if (id < kN) g_owner[id].store(0, kMo);
+  h->state.store(2, kMo);
+  if (h->transient) g_ho_transient_done.fetch_add(1, kMo);
+  PreemptUnregister();
+}
+
+int
+RunHandoff()
+{
+  Result res;
+  Rng r;
+  r.Seed(g_cfg.seed * 271828 + kN);
+  const uint64_t steps = 12000 * g_cfg.scale;
+  std::vector<std::unique_ptr<HThread>> alive;  // holder threads not yet told to exit
+  std::vector<std::unique_ptr<HThread>> leaving;  // told to exit / transient: joined lazily
+  uint64_t uid = 0, transients_started = 0, done = 0, fills_racing_exits = 0, exits_with_waiters = 0, cascades = 0, resets = 0;
+  int gate_seq = 0;
+  const auto t0 = NowNs();
+  std::vector<HThread *> exiting;
+  auto settle = [&](const char *what) {
+    // every transient thread has finished and the holders have reached min(N, alive holder threads)
+    const auto tw = NowNs();
+    while (true) {
+      const auto want = static_cast<int64_t>(std::min<size_t>(kN, alive.size()));
+      bool left = true;
+      for (auto *h : exiting) left = left && h->state.load(kMo) == 2;
+      if (left && g_ho_transient_done.load(kMo) == transients_started && g_ho_holding.load(kMo) == want) return true;
+      if (g_ho_holding.load(kMo) > static_cast<int64_t>(kN)) {
+        Violate("C05", "more-holders-than-ids", Fmt("capacity=%zu handoff: %" PRId64 " threads hold an ID at the same time", kN, g_ho_holding.load()));
+        return false;
+      }
+      if (NowNs() - tw > g_cfg.hang_s * 1000000000ULL) {
+        Violate("C14", Fmt("GetThreadID-does-not-return:handoff:%s", what),
+                Fmt("capacity=%zu handoff step %" PRIu64 " (%s): %zu holder threads are alive (none told to exit), %" PRIu64 " of %" PRIu64
+                    " transient threads have finished, but only %" PRId64 " threads hold an ID after %" PRIu64 " s although min(N, alive) = %" PRId64
+                    " IDs must be obtainable",
+                    kN, done, what, alive.size(), g_ho_transient_done.load(), transients_started, g_ho_holding.load(), g_cfg.hang_s, want));
+        res.Add("hangs", 1);
+        res.counters["evaluations"] = done;
+        EmitResult(res, "hang");
+        fflush(stdout);
+        _exit(0);
+      }
+      sched_yield();
+    }
+  };
+  auto reap = [&](bool all) {
+    for (size_t i = 0; i < leaving.size();) {
+      if (all || leaving[i]->state.load(kMo) == 2) {
+        leaving[i]->th.join();
+        leaving[i] = std::move(leaving.back());
+        leaving.pop_back();
+      } else {
+        ++i;
+      }
+    }
+  };
+  for (; done < steps; ++done) {
+    if ((done & 255) == 0 && NowNs() - t0 > 60ULL * 1000000000ULL) break;
+    if (g_log.n_viol.load(kRlx) != 0) break;
+    // what happens in this step: new holder threads, new transient threads, holders told to exit - fired together
+    const auto kind = r.Below(8);
+    size_t n_hold = 0, n_trans = 0, n_exit = 0;
+    const size_t cap_alive = kN + 3;
+    switch (kind) {
+      case 0: n_hold = 1 + r.Below(2); break;
+      case 1: n_exit = 1 + r.Below(2); break;
+      case 2:
+      case 3: n_hold = 1; n_exit = 1; break;  // a claim racing with an exit
+      case 4: n_trans = 1 + r.Below(6); break;  // a cascade of claims and immediate exits
+      case 5: n_trans = 1 + r.Below(4); n_exit = 1; break;
+      case 6: n_hold = 1 + r.Below(2); n_trans = 1 + r.Below(3); n_exit = r.Below(3); break;
+      default: n_exit = alive.size() > kN ? alive.size() - kN + 1 : 1; break;
+    }
+    if (alive.size() + 1 < kN && r.Chance(1, 2)) {
+      // keep the table nearly full: that is where claims and exits interfere
+      n_hold = kN - 1 - alive.size();
+      n_exit = 0;
+      n_trans = r.Chance(1, 4) ? 1 : 0;
+    }
+    if (alive.size() + n_hold > cap_alive) n_hold = cap_alive > alive.size() ? cap_alive - alive.size() : 0;
+    n_exit = std::min(n_exit, alive.size());
+    const int64_t probe = r.Chance(1, 3) ? 0 : (r.Chance(1, 2) ? static_cast<int64_t>(r.Below(kN)) : -1);
+    const uint64_t max_skew = r.Chance(1, 3) ? 0 : (r.Chance(1, 2) ? 800 : 6000);
+    exiting.clear();
+    for (size_t i = 0; i < n_exit; ++i) {
+      // only threads that hold an ID are told to exit (a thread that is still waiting for one cannot react)
+      auto k = r.Below(alive.size());
+      size_t tries = 0;
+      while (alive[k]->state.load(kMo) != 1 && tries++ < alive.size()) k = (k + 1) % alive.size();
+      if (alive[k]->state.load(kMo) != 1) break;
+      alive[k]->released = true;
+      alive[k]->skew_ns = max_skew ? r.Below(max_skew) : 0;
+      exiting.push_back(alive[k].get());
+      leaving.push_back(std::move(alive[k]));
+      alive[k] = std::move(alive.back());
+      alive.pop_back();
+    }
+    // transient threads are only started when at least one ID stays free of holder threads (otherwise they would wait,
+    // legitimately, until a holder is told to exit)
+    if (n_trans > 0) {
+      const size_t base = alive.size();  // (the exiting threads have been taken out already)
+      if (base >= kN) {
+        n_trans = 0;
+      } else if (base + n_hold >= kN) {
+        n_hold = kN - 1 - base;
+      }
+    }
+    n_exit = exiting.size();
+    if (n_hold + n_trans + n_exit == 0) continue;
+    const bool table_full_before = alive.size() + n_exit >= kN;
+    const bool fills = !table_full_before && alive.size() + n_exit + n_hold >= kN && n_exit > 0;
+    if (fills) ++fills_racing_exits;
+    if (table_full_before && alive.size() + n_exit > kN && n_exit > 0) ++exits_with_waiters;
+    if (n_trans > 1) ++cascades;
+    ++gate_seq;
+    for (size_t i = 0; i < n_hold + n_trans; ++i) {
+      auto h = std::make_unique<HThread>();
+      h->transient = i >= n_hold;
+      h->skew_ns = max_skew ? r.Below(max_skew) : 0;
+      h->th = std::thread(HandoffBody, h.get(), gate_seq, probe, ++uid);
+      if (h->transient) {
+        ++transients_started;
+        leaving.push_back(std::move(h));
+      } else {
+        alive.push_back(std::move(h));
+      }
+    }
+    if (n_hold + n_trans > 0) SpinNs(15000);  // let the new threads reach the gate
+    // fire: exits and the gate in random order
+    if (r.Chance(1, 2)) {
+      g_ho_gate_seq.store(gate_seq, std::memory_order_release);
+      for (auto *h : exiting) h->release.store(1, std::memory_order_release);
+    } else {
+      for (auto *h : exiting) h->release.store(1, std::memory_order_release);
+      g_ho_gate_seq.store(gate_seq, std::memory_order_release);
+    }
+    if (!settle(fills ? "a-claim-that-fills-the-table-raced-with-an-exit" : (table_full_before ? "exits-while-the-table-was-full" : "table-not-full"))) break;
+    reap(false);
+    if (leaving.size() > 24) reap(true);
+    if ((done % 97) == 96) {
+      // start afresh: everybody exits
+      for (auto &h : alive) {
+        h->released = true;
+        h->release.store(1, std::memory_order_release);
+        leaving.push_back(std::move(h));
+      }
+      alive.clear();
+      reap(true);
+      ++resets;
+    }
+  }
+  for (auto &h : alive) {
+    h->release.store(1, std::memory_order_release);
+    leaving.push_back(std::move(h));
+  }
+  alive.clear();
+  reap(true);
+  PreempterStop();
+  res.Add("handoff_steps", done);
+  res.Add("thread_lifetimes", uid);
+  res.Add("claims_that_filled_the_table_while_a_holder_exited", fills_racing_exits);
+  res.Add("exits_while_threads_were_waiting_for_an_id", exits_with_waiters);
+  res.Add("cascades_of_transient_claimers", cascades);
+  res.Add("handoff_resets", resets);
+  res.counters["evaluations"] = done;
+  for (size_t i = 0; i < kN && i < 64; ++i) {
+    if (g_slot_claims[i].load()) res.signatures.push_back(Fmt("handoff:N=%zu:slot-%zu-claimed", kN, i));
+  }
+  res.signatures.push_back(Fmt("handoff:N=%zu", kN));
+  res.samples.push_back(Fmt("{\"mode\":\"handoff\",\"capacity\":%zu,\"steps\":%" PRIu64 ",\"threads\":%" PRIu64 "}", kN, done, uid));
+  EmitResult(res, "ok");
+  return 0;
+}
 }  // namespace idm
 
 /*##############################################################################
@@ -1513,6 +1735,7 @@ std::atomic<uint64_t> g_active[2], g_touch[2];
 std::atomic<uint64_t> g_fwd[2], g_lists[2], g_pairs[2], g_exact[2], g_overlap_fwd{0};
 std::atomic<int> g_in_fwd[2];
 std::atomic<bool> g_dstop{false};
+std::atomic<uint64_t> g_fifo_drops{0};
 
 const char *
 DuoClass(int m)
@@ -1589,9 +1812,9 @@ Coordinator(int m, int workers, uint64_t forwards)
     } else if (quiet) {
       g_exact[m].fetch_add(1, kRlx);
       if (list.size() != 2 || mn != cur - 1) {
-        Violate("C20", "published-list-differs-from-reference-model:no-guard-on-this-manager-while-another-manager-forwards",
-                Fmt("two managers: no guard of manager %d existed from before its ForwardGlobalEpoch until its list was read, yet the list for epoch %zu is "
-                    "%s and GetMinEpoch()=%zu (expected [%zu,%zu] and %zu)",
+        Violate("C16", "destroyed-guards-still-pin-after-a-complete-forward:two-managers",
+                Fmt("two managers: no guard of manager %d existed from before its ForwardGlobalEpoch until its list was read (all earlier guards were "
+                    "destroyed), yet the list for epoch %zu is %s and GetMinEpoch()=%zu (expected [%zu,%zu] and %zu)",
                     m, cur, ListStr(list).c_str(), mn, cur, cur - 1, cur - 1));
       }
     }
@@ -1655,17 +1878,28 @@ DuoWorker(int w, uint64_t seed)
       last_cur[k] = c;
     }
     auto g = take(m);
-    if (r.Chance(1, 4)) {
+    bool dropped = false;
+    if (r.Chance(1, 3)) {
       auto g2 = take(1 - m);  // one guard of each manager at the same time
       SpinNs(r.Below(30000));
-      drop(1 - m, g2);
+      if (r.Chance(1, 2)) {
+        drop(1 - m, g2);  // last in, first out
+      } else {
+        drop(m, g);  // destroyed in creation order: the other manager's guard lives on
+        dropped = true;
+        g_fifo_drops.fetch_add(1, kRlx);
+        SpinNs(r.Below(60000));
+        drop(1 - m, g2);
+      }
     }
-    if (r.Chance(1, 8)) {
-      SleepNs(r.Range(100000, 1500000));
-    } else {
-      SpinNs(r.Below(60000));
+    if (!dropped) {
+      if (r.Chance(1, 8)) {
+        SleepNs(r.Range(100000, 1500000));
+      } else {
+        SpinNs(r.Below(60000));
+      }
+      drop(m, g);
     }
-    drop(m, g);
     // leave windows without any guard
     if (r.Chance(1, 3)) SleepNs(r.Range(50000, 800000));
   }
@@ -1737,9 +1971,10 @@ Run()
   res.Add("forwards", g_fwd[0].load() + g_fwd[1].load());
   res.Add("forwards_started_while_the_other_manager_was_forwarding", g_overlap_fwd.load());
   res.Add("lists_checked", g_lists[0].load() + g_lists[1].load());
-  res.Add("lists_compared_with_model", g_exact[0].load() + g_exact[1].load());
+  res.Add("quiescent_checks", g_exact[0].load() + g_exact[1].load());
   res.Add("guard_forward_pairs_checked", g_pairs[0].load() + g_pairs[1].load());
   res.Add("guards_created", g_guards.load());
+  res.Add("guards_of_two_managers_destroyed_in_creation_order", g_fifo_drops.load());
   res.Add("monotonic_read_checks", g_mono_checks.load());
   res.Add("stale_epoch_publications", g_stale_publications.load());
   res.counters["evaluations"] = g_fwd[0].load() + g_fwd[1].load() + g_guards.load();
@@ -1774,6 +2009,8 @@ struct WorkerCtl {
   std::thread th;
   int mgr{-1};  // manager whose guard the worker's variable holds (-1 none)
   uint64_t pinned{0};
+  int mgr2{-1};  // manager whose guard the worker's second variable holds (-1 none; never the same manager as mgr)
+  uint64_t pinned2{0};
 };
 
 void
@@ -1781,10 +2018,19 @@ WorkerLoop(EpochManager *em0, EpochManager *em1, Cmd *c, int64_t probe_start)
 {
   tl_probe_start = probe_start;
   EpochGuard guard{};
+  EpochGuard guard_b{};  // second variable: a guard of the other manager held at the same time
   while (true) {
     int op = 0;
     while ((op = c->op.load(std::memory_order_acquire)) == 0) sched_yield();
-    if (op == 7) {
+    if (op == 8) {
+      guard_b = em0->CreateEpochGuard();
+      c->epoch.store(guard_b.GetProtectedEpoch());
+    } else if (op == 9) {
+      guard_b = em1->CreateEpochGuard();
+      c->epoch.store(guard_b.GetProtectedEpoch());
+    } else if (op == 10) {
+      guard_b = EpochGuard{};
+    } else if (op == 7) {
       c->epoch.store(IDManager::GetThreadID());
     } else if (op == 1) {
       guard = em0->CreateEpochGuard();
@@ -1846,6 +2092,7 @@ Run()
   InstallSeqCrashHandler("C20");
   const uint64_t histories = 6 * g_cfg.scale;
   uint64_t total_forwards = 0, total_checks = 0, max_nodes = 0, boundaries = 0, managers = 0, overwrites = 0, respawns = 0, id_reuses = 0;
+  uint64_t second_guards = 0, second_first = 0, first_first = 0;
   std::set<std::string> sigs;
   for (uint64_t h = 0; h < histories; ++h) {
     const auto base_nodes = g_aligned_live.load();
@@ -1887,6 +2134,7 @@ Run()
         std::vector<size_t> exp = {cur[m], cur[m] - 1};
         for (auto &w : ws) {
           if (w->mgr == m) exp.push_back(w->pinned);
+          if (w->mgr2 == m) exp.push_back(w->pinned2);
         }
         std::sort(exp.begin(), exp.end(), std::greater<size_t>{});
         exp.erase(std::unique(exp.begin(), exp.end()), exp.end());
@@ -1938,7 +2186,24 @@ Run()
       } else {
         auto &w = *ws[r.Below(nw)];
         const auto k = r.Below(10);
-        if (w.mgr < 0 && r.Chance(1, 12)) {
+        if (two_managers && w.mgr2 < 0 && r.Chance(1, 8)) {
+          // a second guard variable: a guard of the manager the first variable does not use, held at the same time
+          const int m = w.mgr >= 0 ? 1 - w.mgr : static_cast<int>(r.Below(2));
+          Do(w, m == 0 ? 8 : 9);
+          w.mgr2 = m;
+          w.pinned2 = w.cmd.epoch.load();
+          ++second_guards;
+          if (w.mgr >= 0) sigs.insert(Fmt("model:N=%zu:guards-of-both-managers-held-by-one-thread", kN));
+          if (w.pinned2 != cur[m]) {
+            Violate("C20", "guard-created-in-quiescence-does-not-report-current-epoch", Fmt("guard epoch %" PRIu64 ", current %" PRIu64, w.pinned2, cur[m]));
+            stop = true;
+          }
+        } else if (w.mgr2 >= 0 && r.Chance(1, 5)) {
+          // destroyed independently of the first variable: both destruction orders occur
+          Do(w, 10);
+          if (w.mgr >= 0) ++second_first;
+          w.mgr2 = -1;
+        } else if (w.mgr < 0 && w.mgr2 < 0 && r.Chance(1, 12)) {
           // thread churn inside the manager's lifetime: the worker thread exits and a new thread takes its place,
           // steered onto the ID that was just released
           Do(w, 7);
@@ -1952,7 +2217,7 @@ Run()
           ++respawns;
           sigs.insert(Fmt("model:N=%zu:worker-thread-replaced", kN));
         } else if (w.mgr < 0) {
-          const int m = (two_managers && r.Chance(1, 3)) ? 1 : 0;
+          const int m = w.mgr2 >= 0 ? 1 - w.mgr2 : ((two_managers && r.Chance(1, 3)) ? 1 : 0);
           Do(w, m == 0 ? 1 : 4);
           w.mgr = m;
           w.pinned = w.cmd.epoch.load();
@@ -1960,7 +2225,7 @@ Run()
             Violate("C20", "guard-created-in-quiescence-does-not-report-current-epoch", Fmt("guard epoch %" PRIu64 ", current %" PRIu64, w.pinned, cur[m]));
             stop = true;
           }
-        } else if (two_managers && k < 2) {
+        } else if (two_managers && k < 2 && w.mgr2 < 0) {
           // assign a guard of the other manager over the live guard: the old pin ends, the new one begins
           const int m = 1 - w.mgr;
           Do(w, m == 0 ? 1 : 4);
@@ -1980,13 +2245,16 @@ Run()
           }
         } else if (!long_pins || r.Chance(1, 6)) {
           Do(w, r.Chance(1, 5) ? 6 : 2);
+          if (w.mgr2 >= 0) ++first_first;
           w.mgr = -1;
         }
       }
     }
     for (auto &w : ws) {
       if (w->mgr >= 0) Do(*w, 2);  // guards must not outlive their manager (LeaveEpoch touches it)
+      if (w->mgr2 >= 0) Do(*w, 10);
       w->mgr = -1;
+      w->mgr2 = -1;
     }
     if (!stop && r.Chance(1, 2)) {
       // C16: all guards are gone; one complete forward must leave exactly {cur, cur-1}
@@ -2026,6 +2294,9 @@ Run()
   res.Add("lists_compared_with_model", total_checks);
   res.Add("node_boundaries_crossed", boundaries);
   res.Add("guards_assigned_over_live_guard_of_other_manager", overwrites);
+  res.Add("second_guards_of_the_other_manager_in_one_thread", second_guards);
+  res.Add("two_guards_destroyed_last_in_first_out", second_first);
+  res.Add("two_guards_destroyed_in_creation_or_other_order", first_first);
   res.Add("worker_threads_replaced", respawns);
   res.Add("worker_threads_replaced_on_same_id", id_reuses);
   res.counters["max_live_list_nodes"] = max_nodes;
@@ -2160,6 +2431,7 @@ main(int argc, char **argv)
   if (g_cfg.mode == "id") return idm::Run();
   if (g_cfg.mode == "storm") return idm::RunStorm();
   if (g_cfg.mode == "churnstorm") return idm::RunChurnStorm();
+  if (g_cfg.mode == "handoff") return idm::RunHandoff();
   if (g_cfg.mode == "epoch") return ep::Run();
   if (g_cfg.mode == "epochstart") return ep::RunStart();
   if (g_cfg.mode == "epochduo") return ep::duo::Run();
